@@ -111,6 +111,7 @@ PINS = {
   "torf/_magnet.py:Magnet.get_info",
   "torf/_magnet.py:Magnet._set_info_from_torrent",
   "torf/_magnet.py:Magnet._infohash_hex",
+  "torf/_magnet.py:Magnet._has_info",
   "torf/_magnet.py:Magnet.xl"
  ],
  "C09": [
